@@ -50,7 +50,7 @@ def run(tier, seed):
         cp = os.path.join(d, f"cases_{comm}_{mode}.ndjson")
         common.write_ndjson(cp, cases)
         rp = os.path.join(d, f"report_{comm}_{mode}.json")
-        rc, so, se = common.run_bin("certs_replay", [cp, rp, COMMITTEES[comm][2]], timeout=3000)
+        rc, so, se = common.run_bin("certs_replay", [cp, rp, COMMITTEES[comm][2]], timeout=(600 if tier == "quick" else 3000))
         if rc != 0:
             raise common.ToolError(f"certs_replay failed: {se[-800:]}")
         rep = common.load_report(rp)
